@@ -92,5 +92,19 @@ CHECKS["C05"] = {
     "technique": "stateless model checking over operation histories with exhaustive throw-point (fault) enumeration, std::variant as lock-step reference and a lifetime-registry oracle",
 }
 
+CHECKS["C11"] = {
+    "engine": "E1-stateful-explorer",
+    "category": "model_checking",
+    "text": "Explicit-state BFS over the raw states of real xoptional_vector (flags in 64-bit and 8-bit bitset blocks), xoptional_array, xcomplex_vector and xcomplex_array objects: both storages element by element, "
+            "their two lengths and the raw flag blocks including bits beyond size(). Every constructor (default construction by placement into 0xA5- and 0x00-filled storage in both initialisation forms), every resize "
+            "overload for every size, and every element write path (value x flag through [] at front back, forward/reverse iterators, arrow, value-only, flag-only, direct storage) is applied to every reachable state "
+            "up to the maximal size, to FIXPOINT; the model is a vector of pairs. A history explorer with fault injection additionally throws at every element copy of every resize/constructor of a vector over a "
+            "throwing-copy element type and requires the storages to stay in lockstep.",
+    "design_ref": "DESIGN.md section 3, C11",
+    "note": "Trusted: the pair-vector model. Bounds: maximal size 4 (quick) / 5-6 (thorough), values {0,7}; size 9 over 8-bit flag blocks with boundary indices. begin() of the array variants and whole-element assignment "
+            "to a complex proxy are ill-formed on this tree (capability-probed, reported in the evidence); array constructors are called with the container's own size as the statement says.",
+    "technique": "explicit-state model checking of the implementation (BFS to fixpoint over raw container states) plus throw-point enumeration for resize",
+}
+
 NOT_YET = "check not built yet in this round; design in DESIGN.md section 3"
 NOT_APPLICABLE = {}
